@@ -437,6 +437,11 @@ func (c *Config) validateRateLimit() error {
 		if c.RateLimit.RefillRate <= 0 {
 			return fmt.Errorf("rate limit refill rate must be positive (got %d)", c.RateLimit.RefillRate)
 		}
+		// A bucket adds the refilled tokens to its count before it caps the sum: the capacity must leave
+		// room for that addition
+		if int64(c.RateLimit.MaxTokens) > math.MaxInt32 {
+			return fmt.Errorf("rate limit max tokens must be at most %d (got %d)", math.MaxInt32, c.RateLimit.MaxTokens)
+		}
 	}
 	return nil
 }
@@ -457,6 +462,11 @@ func (c *Config) validateCircuitBreaker() error {
 		}
 		if c.CircuitBreaker.MaxRequests < 0 {
 			return fmt.Errorf("circuit breaker max requests must be non-negative (got %d)", c.CircuitBreaker.MaxRequests)
+		}
+		// The breaker counts in 32 bits: a larger value would be cut down (4294967297 becomes 1)
+		if int64(c.CircuitBreaker.FailureThreshold) > math.MaxUint32 || int64(c.CircuitBreaker.SuccessThreshold) > math.MaxUint32 ||
+			int64(c.CircuitBreaker.MaxRequests) > math.MaxUint32 {
+			return fmt.Errorf("circuit breaker thresholds and max requests must be at most %d", uint32(math.MaxUint32))
 		}
 	}
 	return nil
